@@ -355,3 +355,49 @@ package fun
 //@   ensures skipped: forall k: int :: old(calls(i.operation)) <= k && k < calls(i.operation) - 1 ==> errIs(callret1(i.operation, k), ErrIteratorSkip)
 //@   ensures sticky: result1 != nil && calls(i.operation) > old(calls(i.operation)) ==> iclosed(i) && callret1(i.operation, calls(i.operation) - 1) != nil && !errIs(callret1(i.operation, calls(i.operation) - 1), ErrIteratorSkip)
 //@   loop 1 invariant i != nil && i.operation != nil && !iclosed(i) && !oncedone(i.closer.once) && calls(i.operation) >= old(calls(i.operation)) && (forall k: int :: old(calls(i.operation)) <= k && k < calls(i.operation) ==> errIs(callret1(i.operation, k), ErrIteratorSkip))
+
+// Next: advances with ReadOne and caches the value; false leaves the cached
+// value unchanged; after false caused by the stream the iterator is closed.
+//@ func (*Iterator).Next
+//@   props C02
+//@   option noframe
+//@   option atomics-sequential
+//@   requires i != nil && ctx != nil && i.err.handler != nil && (oncedone(i.closer.once) ==> iclosed(i))
+//@   ensures oncedone(i.closer.once) ==> iclosed(i)
+//@   ensures advanced: result ==> calls(i.operation) > old(calls(i.operation)) && i.value == callret0(i.operation, calls(i.operation) - 1) && callret1(i.operation, calls(i.operation) - 1) == nil
+//@   ensures stopped: !result ==> i.value == old(i.value)
+//@   ensures skipped: forall k: int :: old(calls(i.operation)) <= k && k < calls(i.operation) - 1 ==> errIs(callret1(i.operation, k), ErrIteratorSkip)
+
+// SliceIterator: the k-th call yields s[k]; io.EOF from len(s) on, without
+// moving; the index stays within the slice.
+//@ func SliceIterator$1
+//@   props C02
+//@   requires ctx != nil && 0 - 1 <= idx && idx <= len(s) - 1
+//@   ensures 0 - 1 <= idx && idx <= len(s) - 1
+//@   ensures more: old(idx) + 1 < len(s) ==> idx == old(idx) + 1 && result0 == s[idx]
+//@   ensures done: old(idx) + 1 >= len(s) ==> idx == old(idx) && result1 == io_EOF
+//@   modifies cell(idx)
+
+// Producer.Filter: one input element per call; an element failing the filter
+// becomes a skip (which ReadOne removes), others pass through unchanged.
+//@ func (Producer).Filter$1
+//@   props C02
+//@   requires pf != nil && fl != nil && ctx != nil
+//@   ensures calls(pf) == old(calls(pf)) + 1
+//@   ensures inputerr: callret1(pf, calls(pf) - 1) != nil ==> result1 == callret1(pf, calls(pf) - 1) && calls(fl) == old(calls(fl))
+//@   ensures checked: callret1(pf, calls(pf) - 1) == nil ==> calls(fl) == old(calls(fl)) + 1
+//@   ensures kept: callret1(pf, calls(pf) - 1) == nil && callret0(fl, calls(fl) - 1) ==> result1 == nil && result0 == callret0(pf, calls(pf) - 1)
+//@   ensures dropped: callret1(pf, calls(pf) - 1) == nil && !callret0(fl, calls(fl) - 1) ==> result1 == ErrIteratorSkip
+
+// Iterator.Filter: returns the first element delivered by ReadOne that
+// satisfies check (the last one read, the last one checked, every earlier
+// check in this call was false), or ReadOne's error.
+//@ func (*Iterator).Filter$1
+//@   props C02
+//@   option noframe
+//@   option atomics-sequential
+//@   requires i != nil && check != nil && ctx != nil && i.err.handler != nil && (oncedone(i.closer.once) ==> iclosed(i))
+//@   ensures oncedone(i.closer.once) ==> iclosed(i)
+//@   ensures found: result1 == nil ==> calls(check) > old(calls(check)) && callret0(check, calls(check) - 1) && result0 == callret0(i.operation, calls(i.operation) - 1) && callret1(i.operation, calls(i.operation) - 1) == nil
+//@   ensures rejected: forall k: int :: old(calls(check)) <= k && k < calls(check) - (result1 == nil ? 1 : 0) ==> !callret0(check, k)
+//@   loop 1 invariant i != nil && (oncedone(i.closer.once) ==> iclosed(i)) && calls(check) >= old(calls(check)) && (forall k: int :: old(calls(check)) <= k && k < calls(check) ==> !callret0(check, k))
